@@ -4,6 +4,7 @@ import (
 	"log"
 
 	"github.com/lugu/qiloop/bus/net"
+	"github.com/lugu/qiloop/vhook"
 )
 
 // Mail contains a message to which one can respond.
@@ -33,11 +34,13 @@ func NewMailBox(r Receiver) MailBox {
 			if !ok {
 				return
 			}
+			vhook.Emit("mailbox", box, "recv", "from", vhook.ID(mail.From.EndPoint()), "id", mail.Msg.Header.ID, "type", mail.Msg.Header.Type, "service", mail.Msg.Header.Service, "object", mail.Msg.Header.Object, "action", mail.Msg.Header.Action)
 			err := r.Receive(mail.Msg, mail.From)
 			if err != nil {
 				log.Printf("error while processing %v: %v",
 					mail.Msg.Header, err)
 			}
+			vhook.Emit("mailbox", box, "done", "id", mail.Msg.Header.ID)
 		}
 	}()
 	return box
